@@ -194,9 +194,10 @@ func c11Exec(tr *vh.Transcript, ops []string) {
 			tr.Op("%s", op)
 			armed = scheds[f[3]]
 			if f[0] == "fullx" {
-				ids, _ := alloc.AllocateFullMinersForHR(cid, float64(a), mustURL("stratum+tcp://c:@dest:1"), time.Duration(b), nop1, nop2, nop3)
+				ids, rem := alloc.AllocateFullMinersForHR(cid, float64(a), mustURL("stratum+tcp://c:@dest:1"), time.Duration(b), nop1, nop2, nop3)
 				report(cid)
 				tr.Out("ids %s", vh.Tok(strings.Join(ids, ",")))
+				tr.Out("rem %s", vh.RatStr(rem))
 			} else {
 				alloc.AllocatePartialForJob(cid, float64(a), mustURL("stratum+tcp://c:@dest:1"), time.Duration(b), nop1, nop2, nop3)
 				report(cid)
